@@ -40,6 +40,9 @@ def main():
         implutil.BASE = case.get("base")
         del implutil.SPECLOG[:]
         rmod = mod if "family" not in case else importlib.import_module("impl_" + case["family"].lower())
+        # deep-tree cases run under the interpreter's DEFAULT recursion limit: the code under test must not
+        # need more stack than the unchanged library does
+        sys.setrecursionlimit(int(case.get("reclimit_default") and 1000 or 3000))
         try:
             o = rmod.run_case(case)
         except CaseTimeout:
@@ -50,6 +53,7 @@ def main():
             o = {"crash": "%s: %s" % (type(e).__name__, str(e)[:200])}
         finally:
             signal.setitimer(signal.ITIMER_REAL, 0)
+            sys.setrecursionlimit(3000)
         if case.get("adv") is not None and isinstance(o, dict):
             o["speclog"] = list(implutil.SPECLOG[:20])
         obs.append(o)
